@@ -64,6 +64,8 @@ func observeIter(it fox.Iter, probes [][3]string, pats []string, methods []strin
 		}
 	}
 	sb.WriteString("|D=" + fox.VerifDumpIter(it))
+	// cell level: every node reachable from the captured roots, with its address, key, leaf and child addresses
+	sb.WriteString("|N=" + fox.VerifNodesIter(it))
 	return sb.String()
 }
 
@@ -88,6 +90,7 @@ func observeTxn(txn *fox.Txn, probes [][3]string, pats []string, methods []strin
 	}
 	sb.WriteString("|I=" + observeIter(txn.Iter(), probes, pats, methods))
 	sb.WriteString("|D=" + fox.VerifDumpTxn(txn))
+	sb.WriteString("|N=" + fox.VerifNodesTxn(txn))
 	return sb.String()
 }
 
